@@ -9,7 +9,7 @@
 (* Runs of one pair group (same input and history, different configuration) *)
 (* must show the same observation stream as the first run of the group      *)
 (* (C03; with interrupted reads: C14).                                      *)
-EXTENDS ReaderA, FastaFormat, FastqFormat, Json, IOUtils
+EXTENDS ReaderA, Json, IOUtils
 
 Rec == ndJsonDeserialize(IOEnv.TRACE)
 
@@ -32,8 +32,10 @@ Report(kind, viol, extra) ==
 \* records and errors with all fields and reported positions; record-set batches flattened
 Core(r) == IF r.k = "rec" THEN [k |-> "rec", head |-> r.head, lines |-> r.lines, qual |-> r.qual]
            ELSE IF "msg" \in DOMAIN r THEN [f \in DOMAIN r \ {"msg"} |-> r[f]] ELSE r
+\* line endings change byte offsets but not line numbers (C12)
+PosObs(e) == IF pp = "C12" /\ e.pos # <<>> THEN <<e.pos[1]>> ELSE e.pos
 ObsOf(e) ==
-  CASE e.op \in {"next", "iter"} -> <<[r |-> Core(e.res), pos |-> e.pos]>>
+  CASE e.op \in {"next", "iter"} -> <<[r |-> Core(e.res), pos |-> PosObs(e)]>>
     [] e.op \in {"set", "exact"} ->
          IF e.res.k = "ok" THEN [i \in 1..Len(e.sets[e.slot]) |-> [r |-> Core(e.sets[e.slot][i]), pos |-> <<>>]]
          ELSE <<[r |-> Core(e.res), pos |-> <<>>]>>
@@ -47,7 +49,7 @@ Reset(e) ==
   /\ ref' = IF e.first THEN <<>> ELSE ref
 
 Call(e0) ==
-  LET e == e0 @@ [fault |-> flt] IN
+  LET e == e0 @@ [fault |-> flt, pp |-> pp] IN
   IF s.mode = "lost" THEN UNCHANGED <<fmt, chain, run, flt, s, obs, ref, pp>>
   ELSE LET j == Judge(fmt, chain, s, e) IN
        /\ (j.viol # {} => Report("call", j.viol, [op |-> e.op, res |-> Core(e.res), ctx |-> s.ctx, mode |-> s.mode]))
